@@ -141,10 +141,10 @@ def run_property(prop, tier, seed, only=None, jobs=None):
         for key in load_baseline().get(prop, {}):
             if key not in have:
                 rc_missing.append('%s: under contract in the committed baseline but no contract produced obligations for it now' % key)
-    return finish(prop, tier, seed, k1, tres, t0, rc_missing)
+    return finish(prop, tier, seed, k1, tres, t0, rc_missing, partial=bool(only))
 
 
-def finish(prop, tier, seed, k1, tres, t0, extra_errors=()):
+def finish(prop, tier, seed, k1, tres, t0, extra_errors=(), partial=False):
     known = load_known()
     errors, obligations, assumptions = list(extra_errors), [], set()
     functions, bounded = [], []
@@ -281,7 +281,8 @@ def finish(prop, tier, seed, k1, tres, t0, extra_errors=()):
               wall_s=round(time.time() - t0, 2), violations=len(violations))
     if errors:
         ev['coverage']['checker_errors'] = errors[:50]
-    json.dump(ev, open(os.path.join(OUT, 'evidence', prop + '.json'), 'w'), indent=1, default=str)
+    # a run restricted with --only is a development aid: its (partial) evidence never replaces the property's evidence file
+    json.dump(ev, open(os.path.join(OUT, 'evidence', prop + ('.partial.json' if partial else '.json')), 'w'), indent=1, default=str)
     for l in lines:
         print(l)
     print('[%s] obligations=%d proved=%d refuted=%d (known=%d) undecided=%d bounded=%d errors=%d functions=%d wall=%.1fs'
